@@ -124,3 +124,60 @@ pub fn toposort(req: &Value) -> Result<Value, String> {
     }
     Ok(json!({"r": "ok", "order": first, "stable": stable}))
 }
+
+
+/// C06: the auth chain difference on concrete sets (repeated: fresh hasher seeds per call)
+pub fn auth_diff(req: &Value) -> Result<Value, String> {
+    use std::collections::HashSet;
+    use ruma_common::OwnedEventId;
+    let rep = req["repeat"].as_u64().unwrap_or(4);
+    let mut first: Option<Vec<String>> = None;
+    let mut stable = true;
+    for _ in 0..rep {
+        let mut sets: Vec<HashSet<OwnedEventId>> = vec![];
+        for s in req["sets"].as_array().cloned().unwrap_or_default() {
+            let mut hs = HashSet::new();
+            for d in s.as_array().cloned().unwrap_or_default() {
+                hs.insert(OwnedEventId::try_from(d.as_str().unwrap_or("")).map_err(|e| e.to_string())?);
+            }
+            sets.push(hs);
+        }
+        let mut diff: Vec<String> = ruma_state_res::verif_auth_chain_diff(sets).into_iter().map(|x| x.as_str().to_owned()).collect();
+        diff.sort();
+        match &first { None => first = Some(diff), Some(f) => if *f != diff { stable = false; } }
+    }
+    Ok(json!({"r": "ok", "diff": first, "stable": stable}))
+}
+
+
+/// C06: the conflicted / unconflicted split on concrete state sets (repeated: fresh hasher seeds per call)
+pub fn separate(req: &Value) -> Result<Value, String> {
+    use ruma_common::OwnedEventId;
+    use ruma_events::StateEventType;
+    use ruma_state_res::StateMap;
+    let rep = req["repeat"].as_u64().unwrap_or(4);
+    let ty = |s: &str| match s { "RoomTopic" => StateEventType::RoomTopic, "RoomMember" => StateEventType::RoomMember, _ => StateEventType::RoomName };
+    let name = |t: &StateEventType| match t { StateEventType::RoomTopic => "RoomTopic", StateEventType::RoomMember => "RoomMember", _ => "RoomName" };
+    let mut first: Option<(Value, Value)> = None;
+    let mut stable = true;
+    for _ in 0..rep {
+        let mut sets: Vec<StateMap<OwnedEventId>> = vec![];
+        for s in req["sets"].as_array().cloned().unwrap_or_default() {
+            let mut m = StateMap::new();
+            for (k, v) in s.as_object().cloned().unwrap_or_default() {
+                let (t, sk) = k.split_once('|').unwrap_or((&k, ""));
+                m.insert((ty(t), sk.to_owned()), OwnedEventId::try_from(v.as_str().unwrap_or("")).map_err(|e| e.to_string())?);
+            }
+            sets.push(m);
+        }
+        let (un, co) = ruma_state_res::verif_separate(sets.iter());
+        let mut unj = serde_json::Map::new();
+        for ((t, sk), id) in &un { unj.insert(format!("{}|{}", name(t), sk), json!(id.as_str())); }
+        let mut coj = serde_json::Map::new();
+        for ((t, sk), ids) in &co { let mut v: Vec<String> = ids.iter().map(|x| x.as_str().to_owned()).collect(); v.sort(); coj.insert(format!("{}|{}", name(t), sk), json!(v)); }
+        let cur = (Value::Object(unj), Value::Object(coj));
+        match &first { None => first = Some(cur), Some(f) => if *f != cur { stable = false; } }
+    }
+    let (u, c) = first.unwrap_or((json!({}), json!({})));
+    Ok(json!({"r": "ok", "unconflicted": u, "conflicted": c, "stable": stable}))
+}
